@@ -6,7 +6,7 @@ A case is a history of operations (JSON lists):
                                              650 STREAM event; src = None | ['int', port] | ['ip', ip32, port];
                                              answers[j] = [kind, mode, flavour] is what custom attacher j says if
                                              it is consulted about this stream.  kind = 'none' | 'donot' |
-                                             'notcirc' | 'raise' | 'foreign' | ['circ', oid];  mode = 'plain'
+                                             ['notcirc', v] (v: 0 a string, 1..6 False 0 '' [] {} ()) | 'raise' | 'foreign' | ['circ', oid];  mode = 'plain'
                                              (the value itself) | 'wrapped' (a fired Deferred / a coroutine that
                                              returns at once) | 'later' (a pending Deferred / a coroutine awaiting
                                              one; fired by a later 'fire' op);  flavour = 'd' | 'c' (Deferred or
@@ -31,6 +31,8 @@ STREAM_ST = ['NEW', 'NEWRESOLVE', 'REMAP', 'SENTCONNECT', 'SENTRESOLVE', 'SUCCEE
              'DETACHED', 'CONTROLLER_WAIT']
 FP = ['$' + ('%02X' % (17 * i)) * 20 + '~r%d' % i for i in range(1, 4)]
 FOREIGN_ID = 9000
+# invalid answers: a string, and every falsy value that is not None
+NOT_CIRCUITS = [lambda: 'not a circuit', lambda: False, lambda: 0, lambda: '', lambda: [], lambda: {}, lambda: ()]
 
 
 def ip_text(n):
@@ -79,7 +81,7 @@ class Shadow(object):
             if st in ('NEW', 'NEWRESOLVE') and sid in self.sids:
                 return False
             for a in answers:
-                if isinstance(a[0], list) and not a[0][1] < len(self.objs):
+                if isinstance(a[0], list) and a[0][0] == 'circ' and not a[0][1] < len(self.objs):
                     return False
             return True
         if k == 'setatt':
@@ -312,6 +314,8 @@ class P(core.Prop):
                 return TorState.DO_NOT_ATTACH
             if kind == 'notcirc':
                 return 'not a circuit'
+            if isinstance(kind, list) and kind[0] == 'notcirc':
+                return NOT_CIRCUITS[kind[1]]()
             if kind == 'foreign':
                 c = Circuit(state)
                 c.id = FOREIGN_ID
@@ -506,11 +510,11 @@ class P(core.Prop):
             kind = 'none'
         elif r < 0.70:
             kind = 'donot'
-        elif r < 0.80:
-            kind = 'notcirc'
-        elif r < 0.90:
+        elif r < 0.84:
+            kind = ['notcirc', rng.randrange(0, len(NOT_CIRCUITS))]
+        elif r < 0.92:
             kind = 'raise'
-        elif r < 0.95:
+        elif r < 0.96:
             kind = 'foreign'
         else:
             kind = 'none'
@@ -634,7 +638,8 @@ class P(core.Prop):
                 oids = [i for i, o in enumerate(sh.objs) if o[0] == cid]
                 if oids:
                     op = ['connect', k, oids[-1] if rng.random() < 0.9 else rng.choice(oids)]
-                    if rng.random() < 0.6:
+                    # the first connects often overlap: Tor has not yet answered the SETCONF of the first one
+                    if rng.random() < (0.3 if not sh.kids else 0.6):
                         pending_reply[0] = True
                 elif retries[0] < 60:
                     retries[0] += 1
@@ -796,7 +801,7 @@ class P(core.Prop):
             'closed': [['circ', 5, 'BUILT'], ['circ', 5, 'CLOSED']],
             'stale': [['circ', 5, 'BUILT'], ['circ', 5, 'CLOSED'], ['circ', 5, 'BUILT']],
         }
-        kinds = ['none', 'donot', 'notcirc', 'raise', 'foreign', ['circ', 0]]
+        kinds = ['none', 'donot', 'raise', 'foreign', ['circ', 0]] + [['notcirc', v] for v in range(len(NOT_CIRCUITS))]
         for pname, pre in sorted(preludes.items()):
             for kind in kinds:
                 if kind != ['circ', 0] and pname != 'built':
@@ -848,10 +853,12 @@ class P(core.Prop):
     @staticmethod
     def _answer(a):
         kind, mode, _flavour = a
-        if isinstance(kind, list):
+        if isinstance(kind, list) and kind[0] == 'circ':
             k = C('AKCirc', '%d%%nat' % kind[1])
+        elif isinstance(kind, list) and kind[0] == 'notcirc':
+            k = C('AKNotCirc', N(kind[1]))
         else:
-            k = {'none': 'AKNone', 'donot': 'AKDoNot', 'notcirc': 'AKNotCirc', 'raise': 'AKRaise',
+            k = {'none': 'AKNone', 'donot': 'AKDoNot', 'notcirc': '(AKNotCirc 0)', 'raise': 'AKRaise',
                  'foreign': 'AKForeign'}[kind]
         m = {'plain': 'MPlain', 'wrapped': 'MWrapped', 'later': 'MLater'}[mode]
         return Rec(a_kind=k, a_mode=m)
